@@ -22,10 +22,11 @@ CFG = {
                      "the external sixel decoder (go-sixel) is a parameter: safety of the DCS arm is proved under the hypothesis DecoderTame "
                      "(no panic / unbounded allocation / unbounded loop on a payload that sixelTooLarge lets through), which the C05 stream "
                      "checks on the real library on every generated payload (counter dcs:DECODER-CRASH-WITHIN-LIMIT, note hypothesis_violations)",
-                     "Go int is modelled by unbounded Int: proved sound for 39 of the 73 translated bodies (print() included) (Props/C05Overflow range_<fn>: every +/- "
+                     "Go int is modelled by unbounded Int: proved sound for 40 of the 73 translated bodies (print() and resize() included) (Props/C05Overflow range_<fn>: every +/- "
                      "stays within 2^62 on every good state with parameters clamped to 0..65535; round 4: range_cht, range_cbt for EVERY state and tab-stop list — "
                      "the counter of the walk stays within 0..ps; range_print: print() on every good state (insert mode on or off) with glyph width <= 65535, across the wrap's vt.nel() call and the insert-mode shift loop); "
-                     "for resize and the bodies with little or no arithmetic "
+                     "range_resize: resize() through rangeR = rangeS + the function-level loops, the allocation statements, the saved-cursor clamp and printCell, for every good old state with stored cell widths <= 65535 and every new size 1..65535); "
+                     "for the bodies with little or no arithmetic "
                      "(sgr, osc, modes, decsc/decrc/ris, the reply arms) it still rests on the bounds of the safety lemmas and the correspondence run",
                      "evalBody (the meaning of the translated bodies) fixes loop bounds, vt.width()/height() and the pen at loop entry and treats a "
                      "return inside a final loop as break; function-level loops (forS over the snapshot of the old screen, forParams, forSgr walking the "
@@ -62,7 +63,7 @@ CFG = {
                   "statement was false before the repairs F15-F20, F105a-i: Witness/F*.lean prove it from concrete inputs.",
     "level_note": "Proved (all inputs, all sizes, all histories, all schedules): safety + invariant for the model; Draw clipping; event loop "
                   "deadlock-freedom; model function = translated Go body for all 73 bodies (51 functions + the 21 arms of the dispatchers + the statements of csi() in front of its switch), update(), Draw and the goroutine loop: no transcription-only residue in widgets/term's dispatch path (Gen/TermBodies.lean, Gen/TermDraw.lean, Gen/TermLoop.lean "
-                  "regenerated every run; unknown statements fail bodies_fully_recognised; all_generated_covered); no int64 overflow in 39 of them (print included) "
+                  "regenerated every run; unknown statements fail bodies_fully_recognised; all_generated_covered); no int64 overflow in 40 of them (print and resize included) "
                   "(range_<fn>); osc()/DCS/APC total for arbitrary payloads; pen, cursor shape, modes, tab stops, alternate grid, margins, saved-cursor "
                   "clamps and LastColOk across a resize for every old state (resize_frame). Also tied by Gen/TermModes.lean (dispatch labels with their callee, mode tables, sgr labels, attribute bits, tab stops, "
                   "event channel, loop shape, DCS guards and size limit) and by the correspondence check (snapshot after every op, real DCS/OSC "
